@@ -149,6 +149,13 @@ impl<T: crate::Channel> crate::Sender<T> {
     Read the channel state without passing through a scheduling point.
     */
     pub fn verif_snapshot(&self) -> Snapshot {
+        // Report a held lock to the simulator instead of waiting on it
+        if let Err(TryLockError::WouldBlock) = self.shared.state.try_lock() {
+            if let Some(hooks) = current() {
+                hooks.lock_contended("verif_snapshot");
+            }
+        }
+
         let state = self.shared.state.lock().unwrap();
 
         Snapshot {
